@@ -253,7 +253,20 @@ def _block_effects(body, bb):
     if t["k"] == "call":
         d = t["dst"]
         if not d["p"]:
-            eff.append((d["l"], None))
+            f = t["func"]
+            nm = f.get("resolved") or f.get("def") or ""
+            src = None
+            if nm.endswith("::branch") and t["args"]:
+                # `?`: Try::branch maps Ok/Some -> Continue(0), Err/None -> Break(1)
+                a = t["args"][0]
+                p = a.get("move") or a.get("copy")
+                if p is not None and not p["p"]:
+                    ty = body.locals[p["l"]]["ty"]
+                    if ty.startswith(("std::result::Result<", "core::result::Result<")):
+                        src = ("branch", p["l"], "result")
+                    elif ty.startswith(("std::option::Option<", "core::option::Option<")):
+                        src = ("branch", p["l"], "option")
+            eff.append((d["l"], src))
     return eff
 
 
@@ -311,6 +324,12 @@ def explore(body, start, avoid=(), goals=None, state=None, limit=200000):
         for (l, v) in _block_effects(body, bb):
             if v is None:
                 d.pop(l, None)
+            elif isinstance(v, tuple) and v[0] == "branch":
+                if v[1] in d:
+                    sv = d[v[1]]
+                    d[l] = (0 if sv == 0 else 1) if v[2] == "result" else (1 if sv == 0 else 0)
+                else:
+                    d.pop(l, None)
             elif isinstance(v, tuple):
                 if v[1] in d:
                     d[l] = d[v[1]]
